@@ -1,5 +1,6 @@
 (* Lemmas over the facts regenerated from the Rust source on every run (Gen/SrcFacts.v):
-   the step orders that the protocol-level theorems and the repaired defects depend on.
+   constants the models assume and the result-checking facts of the fault model (the textual step orders
+   live in SrcOrder_diag.v and are diagnostics only).
    Each is a decidable fact about finite lists, re-proved by computation whenever the source
    changes; a change of order makes the corresponding lemma fail. *)
 From Coq Require Import List NArith String Bool Arith.
@@ -7,90 +8,6 @@ From Nomt.Gen Require Import SrcFacts.
 Import ListNotations.
 Open Scope string_scope.
 
-Fixpoint rank (name : string) (l : list (string * nat)) : nat :=
-  match l with
-  | [] => 0
-  | (n, r) :: l' => if String.eqb n name then r else rank name l'
-  end.
-
-(* both present and in this order *)
-Definition before (a b : string) (l : list (string * nat)) : bool :=
-  Nat.ltb 0 (rank a l) && Nat.ltb (rank a l) (rank b l).
-
-Definition absent (a : string) (l : list (string * nat)) : bool := Nat.eqb (rank a l) 0.
-
-(* --- C12 / C14: the commit entry points of lib.rs ------------------------------------- *)
-(* the write lock is taken before the previous-root check; nothing that changes state (rollback
-   log, overlay status, root, store) happens before the check; a poisoned store is refused before
-   the rollback log is touched *)
-Definition entry_ok (overlay : bool) (l : list (string * nat)) : bool :=
-  before "lock" "root_check" l &&
-  before "lock" "poison_check" l &&
-  before "poison_check" "rollback_append" l &&
-  before "root_check" "rollback_append" l &&
-  before "root_check" "root_update" l &&
-  before "root_check" "store_commit" l &&
-  before "rollback_append" "store_commit" l &&
-  before "root_update" "store_commit" l &&
-  (if overlay
-   then before "parent_check" "lock" l && before "root_check" "mark_committed" l
-   else absent "mark_committed" l).
-
-Definition commit_orders_ok : bool :=
-  entry_ok false steps_session_commit && entry_ok false steps_session_commit_nb &&
-  entry_ok true steps_overlay_commit && entry_ok true steps_overlay_commit_nb &&
-  before "lock" "poison_check" steps_rollback && before "poison_check" "truncate" steps_rollback &&
-  before "truncate" "commit" steps_rollback.
-
-Lemma commit_orders_ok_true : commit_orders_ok = true.
-Proof. vm_compute. reflexivity. Qed.
-
-(* --- C14: failures are examined and poison the store ------------------------------------ *)
-Definition fault_handling_ok : bool :=
-  before "poison_check" "sync" store_commit_steps && before "sync" "poison_set" store_commit_steps &&
-  before "send" "recv_checked" write_ht_steps && before "recv_checked" "sync_all" write_ht_steps.
-
-Lemma fault_handling_ok_true : fault_handling_ok = true.
-Proof. vm_compute. reflexivity. Qed.
-
-(* --- C03 / C04 / C17: the phases of a sync and the order inside its steps ----------------- *)
-Definition sync_order_ok : bool :=
-  before "bitbox_begin" "bitbox_wait_pre_meta" sync_phases &&
-  before "beatree_begin" "beatree_wait_pre_meta" sync_phases &&
-  before "rollback_begin" "meta_write" sync_phases &&
-  before "bitbox_wait_pre_meta" "meta_write" sync_phases &&
-  before "beatree_wait_pre_meta" "meta_write" sync_phases &&
-  before "meta_write" "rollback_post_meta" sync_phases &&
-  before "meta_write" "bitbox_post_meta" sync_phases &&
-  before "meta_write" "beatree_post_meta" sync_phases &&
-  before "rollback_post_meta" "rollback_wait_post_meta" sync_phases &&
-  (* the redo log is complete and durable before it matters *)
-  before "set_len" "write_all" write_wal_steps && before "write_all" "sync_all" write_wal_steps &&
-  (* the switch-over record is written, then made durable *)
-  before "write_all_at" "sync_all" meta_write_steps.
-
-(* hash-table pages are durable before the redo log is discarded, in a sync and in recovery; a
-   rollback record is complete and durable before the log's live range moves *)
-Definition sync_order_ok2 : bool :=
-  before "write_ht" "truncate_wal" bitbox_post_meta_steps &&
-  before "redo_write" "ht_sync" bitbox_recover_steps &&
-  before "ht_sync" "final_truncate" bitbox_recover_steps &&
-  before "write_header" "write_payload" seglog_append_steps &&
-  before "write_payload" "fsync" seglog_append_steps &&
-  before "fsync" "end_live_update" seglog_append_steps.
-
-Lemma sync_order_ok_true : sync_order_ok = true /\ sync_order_ok2 = true.
-Proof. vm_compute. split; reflexivity. Qed.
-
-(* --- C20: lock before touching the directory, drain before unlocking ---------------------- *)
-Definition lock_order_ok : bool :=
-  before "mkdir" "flock" store_create_steps && before "flock" "create_meta" store_create_steps &&
-  before "io_shutdown" "flock_drop" shared_drop_steps.
-
-Lemma lock_order_ok_true : lock_order_ok = true.
-Proof. vm_compute. reflexivity. Qed.
-
-(* --- constants the models use ------------------------------------------------------------- *)
 Definition constants_ok : bool :=
   N.eqb c_PAGE_SIZE 4096 && N.eqb c_DEPTH 6 &&
   N.eqb c_NODES_PER_PAGE (2 ^ (c_DEPTH + 1) - 2) &&
